@@ -99,7 +99,7 @@ def maxima(check: Check, infos: dict) -> None:
         ymax = ("call", ("attr", y, "max"), (), (("axis", ("const", 1)), ("keepdims", ("const", True))))
         pos = ("cmp", (">",), (y, ("const", 0)))
         eq = ("cmp", ("==",), (y, ymax))
-        m_ok = mask[0] == "binop" and mask[1] == "&" and {mask[2], mask[3]} == {pos, eq} and wh[2][1] == x and \
+        m_ok = normalize(mask) == normalize(("binop", "&", pos, eq)) and wh[2][1] == x and \
             (lambda v: isinstance(v, float) and v != v)(const_value(wh[2][2]))
         check.require(m_ok, "R2", f"{cname}.defuzzify/mask", "selected points: membership equals the per-set maximum and is positive; others are NaN"
                       if m_ok else f"selection is {show(wh)[:200]}", loc(fn))
